@@ -79,6 +79,17 @@ func milAuts(in map[string]interface{}) map[string]interface{} {
 // -> RES* returned by DeriveRESstarAndSetKey and the keys it installed in the UE context.
 // The context is built as CreateUE does (NewRanUeContext + GetAuthSubscription) and snName by the
 // expression of stgutg.RegisterUE (copied, RegisterUE itself needs an SCTP association).
+// the UE context of the previous derive call and what it was challenged with: it is authenticated AGAIN after the next
+// UE context has been created (re-authentication of an earlier subscriber: same inputs, same results)
+type derived struct {
+	ue             *tglib.RanUeContext
+	autn           [16]uint8
+	rand           []byte
+	sn, mnc, mcc   string
+}
+
+var prevDerived *derived
+
 func derive(in map[string]interface{}) map[string]interface{} {
 	mnc, mcc := str(in, "mnc"), str(in, "mcc")
 	var ue *tglib.RanUeContext
@@ -102,14 +113,21 @@ func derive(in map[string]interface{}) map[string]interface{} {
 		snName = "5G:mnc" + mnc + ".mcc" + mcc + ".3gppnetwork.org"
 	}
 
+	out := map[string]interface{}{}
+	if p := prevDerived; p != nil {
+		prevDerived = nil
+		r := p.ue.DeriveRESstarAndSetKey(p.ue.AuthenticationSubs, p.autn, p.rand, p.sn, p.mnc, p.mcc)
+		out["prev_again"] = map[string]interface{}{"res_star": hx(r), "kamf": hx(p.ue.Kamf), "knasint": hx(p.ue.KnasInt[:]), "knasenc": hx(p.ue.KnasEnc[:])}
+	}
 	resStat := ue.DeriveRESstarAndSetKey(ue.AuthenticationSubs,
 		autn,
 		rand[:],
 		snName,
 		mnc,
 		mcc)
-	return map[string]interface{}{"res_star": hx(resStat), "kamf": hx(ue.Kamf), "knasint": hx(ue.KnasInt[:]), "knasenc": hx(ue.KnasEnc[:]),
-		"sn_name": snName}
+	prevDerived = &derived{ue: ue, autn: autn, rand: append([]byte{}, rand...), sn: snName, mnc: mnc, mcc: mcc}
+	out["res_star"], out["kamf"], out["knasint"], out["knasenc"], out["sn_name"] = hx(resStat), hx(ue.Kamf), hx(ue.KnasInt[:]), hx(ue.KnasEnc[:]), snName
+	return out
 }
 
 // wmnsk: the external library on its own: {k, op | opc, rand, sqn (6 octets hex), amf (2 octets hex), mcc, mnc}
